@@ -131,6 +131,10 @@ def objective_forms(n):
         ("sum(S)", ("msum", Sm)), ("sum(S[2,:])", ("vsum", ("mrow", Sm, 2))), ("fro(S)", ("fro", Sm)), ("sum(A*A.T)", ("msum", ("mbin", "*", M, ("mT", M)))),
         ("quad(v3)", ("quad", ("slice", v, 0, 3, None), [[1.0, 0.0, 0.0], [0.0, 1.0, 0.0], [0.0, 0.0, 1.0]])),
         ("x-x+sum(v)*0", ("bin", "+", ("bin", "-", X, X), ("bin", "*", ("vsum", v), ("num", 0.0)))),
+        # views whose NAME collides with another view of different content
+        ("sum(v[0:6:2])", ("vsum", ("slice", v, 0, 6, 2))), ("sum(v[0:6])", ("vsum", ("slice", v, 0, 6, None))),
+        ("sum(A[0,0:2])", ("vsum", ("mrowpart", M, 0, (0, 2, None)))), ("sum(A[1:3,1])", ("vsum", ("mcolpart", M, 1, (1, 3, None)))),
+        ("c@v[3:9:5]", ("lincomb", [1.0, 2.0], ("slice", v, 3, 9, 5))),
     ]
 
 
@@ -151,6 +155,11 @@ def constraint_forms(n):
         ("1<=2", [("le", ("const", 1.0), ("num", 2.0))]),
         ("A[0,0]>=v[11]", [("ge", ("melem", M, 0, 0), ("velem", v, 11))]),
         ("two", [("ge", ("vsum", v), ("num", 1.0)), ("le", ("dot", v, v), ("num", 4.0))]),
+        ("sum(v[0:6])>=1", [("ge", ("vsum", ("slice", v, 0, 6, None)), ("num", 1.0))]),
+        ("sum(v[0:6:2])>=1", [("ge", ("vsum", ("slice", v, 0, 6, 2)), ("num", 1.0))]),
+        ("sum(A[0,:])>=1", [("ge", ("vsum", ("mrow", M, 0)), ("num", 1.0))]),
+        ("sum(A[:,1])<=1", [("le", ("vsum", ("mcol", M, 1)), ("num", 1.0))]),
+        ("sum(v[3:9])<=1", [("le", ("vsum", ("slice", v, 3, 9, None)), ("num", 1.0))]),
     ]
 
 
